@@ -118,6 +118,14 @@ func (in *Interp) invoke(fnv Value, args []Value, c *ssa.CallCommon, fr *Frame) 
 	if in.summaries["FindRoot"] && name == repoMod+"/util/fn.FindRoot" {
 		return in.findRootSummary(args, c, fr)
 	}
+	if nOut := in.kernelSummaryFor(fn.Name()); nOut >= 0 && in.inRepo(fn) {
+		nRes := fn.Signature.Results().Len()
+		res := in.kernelSummary(fn.Name(), nOut, args, nRes)
+		if nRes > 1 {
+			return []Value{TupleV(res)}
+		}
+		return res
+	}
 	if in.summaries["uf:"+fn.Name()] && in.inRepo(fn) {
 		// stated abstraction: the callee is an arbitrary (deterministic) function of its float
 		// arguments; what is proved holds for every such function, hence for the real one
